@@ -48,7 +48,7 @@ HR = "WSGIContainer.handle_request"
 
 REQUIRED_KEYS = ["REQUEST_METHOD", "REMOTE_ADDR", "SCRIPT_NAME", "PATH_INFO", "QUERY_STRING", "SERVER_NAME", "SERVER_PORT", "SERVER_PROTOCOL",
                  "wsgi.version", "wsgi.url_scheme", "wsgi.input", "wsgi.errors", "wsgi.multithread", "wsgi.multiprocess", "wsgi.run_once"]
-SAFE_METHODS = {"replace", "upper", "lower", "items", "split", "strip", "get", "startswith", "endswith", "partition", "rpartition", "lstrip", "rstrip"}
+SAFE_METHODS = {"replace", "upper", "lower", "items", "get_all", "split", "strip", "get", "startswith", "endswith", "partition", "rpartition", "lstrip", "rstrip"}
 SAFE_CALLS = {"str", "BytesIO", "escape.utf8", "utf8", "httputil.split_host_and_port", "split_host_and_port", "escape.url_unescape", "url_unescape", "len", "bool", "dict", "io.BytesIO"}
 
 
@@ -316,6 +316,10 @@ def rule_headers(ck, fi):
     loops = [l for l in q.walk_body(fi.node) if isinstance(l, ast.For) and isinstance(l.iter, ast.Call) and q.dotted(l.iter.func) in (hdrs + ".items", hdrs + ".get_all")]
     ck.floor("C47.headers", len(loops), 1, "loops over request.headers")
     for l in loops:
+        # HTTP_* variables are single-valued: they must be fed from the combined-value view (items()); get_all() yields
+        # one pair per field line, so a repeated header would keep only its last line
+        n += 1
+        ck.ob("C47.headers", fi, l.iter, q.call_attr(l.iter) == "items", "the HTTP_* variables are built from request.headers.items() (comma-joined values of repeated headers), not from the per-line pairs of get_all()")
         kname = l.target.elts[0].id if isinstance(l.target, ast.Tuple) else None
         vname = l.target.elts[1].id if isinstance(l.target, ast.Tuple) else None
         sts = [s for st0 in l.body for s in q.walk_local(st0) if isinstance(s, ast.Assign) and isinstance(s.targets[0], ast.Subscript) and q.dotted(s.targets[0].value) == envname]
@@ -580,6 +584,8 @@ def rule_response(ck):
     helpers = {h.name: h for h in ck.repo.nested(fi)}
     pulls = []
     for a in q.walk_body(fi.node):
+        if isinstance(a, ast.NamedExpr):   # while (chunk := await ...) is not None:
+            a = ast.Assign(targets=[ast.Name(id=a.target.id, ctx=ast.Store())], value=a.value)
         if isinstance(a, ast.Assign) and isinstance(a.targets[0], ast.Name):
             v = a.value.value if isinstance(a.value, ast.Await) else a.value
             if isinstance(v, ast.Call) and q.call_attr(v) == "run_in_executor":
@@ -623,7 +629,7 @@ def rule_response(ck):
             n += 1
             ck.ob("C47.response", h, sv, q.is_const(sv, None), "the end-of-iteration sentinel is None, which no application chunk can equal (an empty bytestring is a legal chunk)")
     nn = check_truthiness(ck, "C47.response", fi, extra={cv for cv, _h in pulls})
-    explicit = [c2 for c2 in ast.walk(fi.node) if isinstance(c2, ast.Compare) and isinstance(c2.left, ast.Name) and c2.left.id in {cv for cv, _h in pulls} and isinstance(c2.ops[0], (ast.Is, ast.IsNot)) and q.is_const(c2.comparators[0], None)]
+    explicit = [c2 for c2 in ast.walk(fi.node) if isinstance(c2, ast.Compare) and ((isinstance(c2.left, ast.Name) and c2.left.id in {cv for cv, _h in pulls}) or (isinstance(c2.left, ast.NamedExpr) and c2.left.target.id in {cv for cv, _h in pulls})) and isinstance(c2.ops[0], (ast.Is, ast.IsNot)) and q.is_const(c2.comparators[0], None)]
     if not explicit and not any(v.rule == "C47.response" and "truthiness" in v.message for v in ck.violations):
         raise AnalysisError("C47.response: the test that ends the chunk collection was not recognised")
     # status / reason / body plumbing
@@ -747,6 +753,7 @@ MUTANTS = [
     ("QUERY_STRING taken from the full uri", _e(_dict_value("QUERY_STRING", "request.uri")), "C47.cgi-keys"),
     ("Content-Type popped without presence test (KeyError when absent)", _e(replace_stmt(lambda st: isinstance(st, ast.If) and "'Content-Type' in" in _src(st.test), lambda st: st.body)), ("C47.environ-total", "C47.headers")),
     ("seeded C47-adv4: every CONTENT_* header stored without the HTTP_ prefix (HTTP_CONTENT_ENCODING lost)", _e(lambda root: _content_prefix(root)), "C47.headers"),
+    ("seeded C47-adv6: HTTP_* built from request.headers.get_all() (a repeated header keeps only its last line)", _e(replace_expr(lambda n: isinstance(n, ast.Attribute) and n.attr == "items" and "headers" in _src(n), lambda n: ast.Attribute(value=n.value, attr="get_all", ctx=ast.Load()))), "C47.headers"),
     ("HTTP_ keys not upper-cased", _e(replace_expr(lambda n: isinstance(n, ast.Call) and q.call_attr(n) == "upper", lambda n: n.func.value)), "C47.headers"),
     ("HTTP_ keys keep '-'", _e(replace_expr(lambda n: isinstance(n, ast.Call) and q.call_attr(n) == "replace", lambda n: n.func.value)), "C47.headers"),
     ("response: application header names not lower-cased before the absence tests", _e(replace_expr(lambda n: isinstance(n, ast.Call) and q.call_attr(n) == "lower", lambda n: n.func.value), HR), "C47.response"),
